@@ -130,6 +130,15 @@ def streams(tier, rng, P, only=None, cases=None):
                 a = "[%d %s : %s]" % (k, " ".join(head), " ".join(rest)); b = " ".join((head + rest) * (k - 1) + head)
             wrap = rng.choice(["l4 %s " + tail, "l4 %s " + tail, "l8 Sub{%s " + tail + "} g", "Slur(1) l4 %s " + tail, "#A={%s} l4 #A " + tail])
             cs.append(dict(req="compile2 %s %s" % (hx(wrap % a), hx(wrap % b)), src=wrap % a, un=wrap % b, show=wrap % a, jump=True, sexp=None, key="tieend%d" % j))
+        # a value list written in the `=` form (no parentheses) directly before the `:` of the loop: the colon is still the loop's
+        for j in range(40 if big else 12):
+            x = rng.choice(["v.onNote=110,70", "q.onCycle=80,90", "t.onNote=1,2,3", "v.onCycle=100,60", "o.onNote=4,5", "l.onNote=48,24", "v.N=90,80", "q.C=50,100"])
+            k = rng.choice([2, 3]); h = rng.choice(["c8", "c8 d8", "e"]); t = rng.choice(["d8", "g8 a8", "r8"]); tail = rng.choice(["e", "f g", "r"])
+            wrapl = rng.choice(["%s", "%s", "Sub{%s} r", "Div{%s}2"])
+            a = wrapl % ("[%d %s %s : %s ]" % (k, h, x, t)) + " " + tail
+            b = wrapl % (" ".join(["%s %s %s" % (h, x, t)] * (k - 1) + ["%s %s" % (h, x)])) + " " + tail
+            if "Div{" in wrapl: continue      # (a tuplet counts the elements of the written text: the unrolled text has another count)
+            cs.append(dict(req="compile2 %s %s" % (hx("l4 " + a), hx("l4 " + b)), src="l4 " + a, un="l4 " + b, show="l4 " + a, jump=True, sexp=None, key="eqlist%d" % j))
         for j, (a, b) in enumerate([("#A={c} [2 #A #A={d}] e", "#A={c} #A #A={d} #A #A={d} e"), ("#A={c:d} [3 #A e] g", "#A={c:d} #A e #A e #A e g")]):
             cs.append(dict(req="compile2 %s %s" % (hx(a), hx(b)), src=a, un=b, show=a, jump=True, sexp=None, key="mfix%d" % j))
         for j, (a, b) in enumerate([("[1 c : [2 d] e] f", "c f"), ("[c d]", "c d c d"), ("[3 c : d]", "c d c d c"), ("{[2 c d]}4", "{c d c d}4"), ("Sub{[2 c : >]} e", "Sub{c > c} e")]):
